@@ -240,6 +240,35 @@ pub fn run(a: &Args) {
         patch_event(&mut traces[i], &concs[i], "macro", &three);
         k += 3;
     }
+    // 2b. long rings (129..=600 vertices): a small grid ring whose vertices are repeated, so that few edges
+    //     carry the whole area and they fall on any position, the middle and the quarters among them
+    let nlong = a.num("long", 60) as usize;
+    for j in 0..nlong {
+        let i = k % nexact;
+        k += 1;
+        let pt = *r.pick(&[5, 25, 15]);
+        let nv = 3 + r.below(2);
+        let q = grid_rings(nv)[r.below(if nv == 3 { 729 } else { 6561 })].clone();
+        let total = 129 + r.below(if j % 4 == 0 { 472 } else { 172 });
+        // the positions where the ring moves on to its next vertex
+        let mut cuts: Vec<usize> = (0..nv - 1).map(|_| 1 + r.below(total - 1)).collect();
+        match j % 3 {
+            0 => cuts[0] = total / 2 + r.below(2),
+            1 => cuts[0] = if r.below(2) == 0 { total / 4 } else { total / 2 + (total - total / 2) / 2 },
+            _ => {}
+        }
+        cuts.sort();
+        let mut ring: Vec<(i32, i32)> = Vec::with_capacity(total + 1);
+        let mut v = 0;
+        for p in 0..total {
+            while v < cuts.len() && p >= cuts[v] { v += 1; }
+            ring.push(q[v.min(nv - 1)]);
+        }
+        if r.below(2) == 0 { ring.push(q[0]); }
+        let role = r.below(2) as i32;
+        let ctor = if r.below(2) == 0 { "new" } else { "with_rings" };
+        ring_event(&mut traces[i], &concs[i], pt, ctor, &[(role, lift(pt, &ring, 0))]);
+    }
     // 3. every ring kind x every grid ring of 1..3 vertices for the multipatch
     for n in 1..=3usize {
         for ring in grid_rings(n) {
